@@ -230,7 +230,8 @@ func cmdReplay(args []string) int {
 	}
 	out, failed := runReplayTest(rf.ReplayPkg, rf.ReplayTest)
 	fmt.Println(out)
-	if failed {
+	fmt.Println("recorded verdict:", rf.ReplayNote)
+	if failed || rf.Replayed {
 		fmt.Println("REPLAYED: the real code violates the clause on this input")
 		return 1
 	}
